@@ -279,3 +279,23 @@ sens("R24-front-drop-max", "R24", "R24/front", (UTIL, "            world, src_se
 sens("R24-random-skip", "R24", "R24/once", (UTIL, "        dest = dest_set[i]\n        connect(src, dest, *attrs)", "        dest = dest_set[i]\n        if dest in connected and len(connected) < len(dest_set):\n            continue\n        connect(src, dest, *attrs)"))
 spec("R24s-idempotent-add", "R24", (UTIL, "        connect(src, dest, *attrs)\n        connected.add(dest)\n        connects[dest]", "        connect(src, dest, *attrs)\n        if dest not in connected:\n            connected.add(dest)\n        connects[dest]"))
 spec("R24s-len", "R24", (UTIL, "        pos += dest_size", "        pos += len(dest_set)"))
+
+# ----------------------------------------------------------------------------- R23
+sens("R23-step-kwargs", "R23", "R23/shape", (SIMM, 'return await self._proxy.send(["step", (time, inputs, max_advance), {}])', 'return await self._proxy.send(["step", (time, inputs), {"max_advance": max_advance}])'))
+sens("R23-no-truncate", "R23", "R23/feature", (ADAP, '                request = ("step", args[0:2], kwargs)', '                request = ("step", args, kwargs)'))
+sens("R23-truncate-3", "R23", "R23/feature", (ADAP, '                request = ("step", args[0:2], kwargs)', '                request = ("step", args[0:3], kwargs)'))
+sens("R23-truncate-wrong-func", "R23", "R23/feature", (ADAP, '            if func_name == "step":\n                request = ("step", args[0:2], kwargs)', '            if func_name == "get_data":\n                request = ("step", args[0:2], kwargs)'))
+sens("R23-setup-done-forwarded", "R23", "R23/feature", (ADAP, '            if func_name == "setup_done":\n                return None', '            if func_name == "setup_done":\n                pass'))
+sens("R23-type-default", "R23", "R23/feature", (ADAP, '        self._out.meta.setdefault("type", "time-based")', '        self._out.meta.setdefault("type", "hybrid")'))
+sens("R23-swap-thresholds", "R23", "R23/gate", (ADAP, "    if version < [2, 2]:\n        proxy = V2ToV1Adapter(proxy)\n    if version < [3]:\n        proxy = V3ToV2Adapter(proxy)", "    if version < [3]:\n        proxy = V2ToV1Adapter(proxy)\n    if version < [2, 2]:\n        proxy = V3ToV2Adapter(proxy)"))
+sens("R23-elif", "R23", "R23/gate", (ADAP, "    if version < [3]:\n        proxy = V3ToV2Adapter(proxy)", "    elif version < [3]:\n        proxy = V3ToV2Adapter(proxy)"))
+sens("R23-threshold-2", "R23", "R23/gate", (ADAP, "    if version < [2, 2]:", "    if version < [2]:"))
+sens("R23-no-v4-reject", "R23", "R23/gate", (ADAP, "    if version >= [4]:", "    if version >= [5]:"))
+sens("R23-no-mismatch", "R23", "R23/gate", (ADAP, "    if explicit_version and version != explicit_version:", "    if explicit_version and version[0] != explicit_version[0] and False:"))
+sens("R23-parse-patch-level", "R23", "R23/versions", (PROX, '        return list(map(int, meta["api_version"].split(".")))', '        return list(map(int, meta["api_version"].split(".")[:2]))'))
+sens("R23-missing-version-3", "R23", "R23/versions", (PROX, '    if "api_version" not in meta:\n        return [1]', '    if "api_version" not in meta:\n        return [3]'))
+sens("R23-keep-time-resolution", "R23", "R23/local", (PROX, '            forced_old_api = True\n            del kwargs["time_resolution"]', '            forced_old_api = True'))
+sens("R23-always-drop", "R23", "R23/local", (PROX, '        if check_api_compliance(self.sim):\n            forced_old_api = False\n        else:\n            forced_old_api = True\n            del kwargs["time_resolution"]', '        forced_old_api = not check_api_compliance(self.sim)\n        del kwargs["time_resolution"]'))
+sens("R23-no-claim-reject", "R23", "R23/local", (PROX, "        if forced_old_api and version >= [3]:", "        if forced_old_api and version >= [4]:"))
+spec("R23s-slice", "R23", (ADAP, '                request = ("step", args[0:2], kwargs)', '                request = ("step", args[:2], kwargs)'))
+spec("R23s-flag-expr", "R23", (PROX, '        if check_api_compliance(self.sim):\n            forced_old_api = False\n        else:\n            forced_old_api = True\n            del kwargs["time_resolution"]', '        forced_old_api = not check_api_compliance(self.sim)\n        if forced_old_api:\n            del kwargs["time_resolution"]'))
